@@ -103,7 +103,9 @@ func (interp *Interpreter) run(n *node, cf *frame) {
 	if cf == nil {
 		f = interp.frame
 	} else {
-		f = newFrame(cf, len(n.types), interp.runid())
+		// Inherit the run id of the calling frame, so that a cancellation
+		// also applies to the init functions and main not yet started.
+		f = newFrame(cf, len(n.types), cf.runid())
 	}
 	interp.mutex.RLock()
 	c := reflect.ValueOf(interp.done)
